@@ -184,3 +184,25 @@ package db
 //@   requires itr != nil && itr.source != nil
 //@   ensures [stripped] len(k) == len(itkeyS[itr.source]) - len(itr.prefix) && forall(i, imp(0 <= i && i < len(k), at(k, i) == at(itkeyS[itr.source], len(itr.prefix) + i)))
 //@   modifies *
+
+// ---------------------------------------------------------------- memdb.go: which walk of the B-tree an iterator's producer runs
+//
+// Ranges are [start, end) in both directions, nil = unbounded. The B-tree's
+// descending walks are (pivot, last] / [first, pivot], so the reverse cases
+// filter: the key equal to end is skipped, the walk stops below start (start
+// itself is delivered). Each case must use exactly this walk with these
+// filters (a clause whose walk is no longer called fails).
+//@ func newMemDBIteratorMtxChoice$1()
+//@   props C18
+//@   nosafety
+//@   callsite BTree).Ascend$ [forward-unbounded] start == nil && end == nil && !reverse && skipEqual == nil && abortLessThan == nil
+//@   callsite BTree).Descend$@1 [reverse-unbounded] start == nil && end == nil && reverse && skipEqual == nil && abortLessThan == nil
+//@   callsite BTree).AscendGreaterOrEqual$ [forward-from-start] start != nil && end == nil && !reverse && skipEqual == nil && abortLessThan == nil
+//@   callsite BTree).AscendRange$ [forward-bounded] end != nil && !reverse && skipEqual == nil && abortLessThan == nil
+//@   callsite BTree).Descend$@2 [reverse-down-to-start-inclusive] start != nil && end == nil && reverse && skipEqual == nil && abortLessThan == start
+//@   callsite BTree).DescendLessOrEqual$ [reverse-bounded-end-exclusive] end != nil && reverse && skipEqual == end && abortLessThan == start
+//@   callsite newKey@1 [pivot-start] arg0 == start
+//@   callsite newKey@2 [range-from-start] arg0 == start
+//@   callsite newKey@3 [range-to-end] arg0 == end
+//@   callsite newKey@4 [pivot-end] arg0 == end
+//@   modifies *
